@@ -476,7 +476,12 @@ htp_status_t htp_connp_RES_BODY_CHUNKED_LENGTH(htp_connp_t *connp) {
                 // More data available
                 connp->out_state = htp_connp_RES_BODY_CHUNKED_DATA;
             } else if (connp->out_chunked_length == 0) {
-                // End of data
+                // End of data. The decompressors hand out what they still
+                // hold now: the trailer comes after the body.
+                if (connp->out_decompressor != NULL) {
+                    htp_status_t rc = htp_tx_res_process_body_data_ex(connp->out_tx, NULL, 0);
+                    if (rc != HTP_OK) return rc;
+                }
                 connp->out_state = htp_connp_RES_HEADERS;
                 connp->out_tx->response_progress = HTP_RESPONSE_TRAILER;
             }
